@@ -118,7 +118,11 @@ def eval_case(case):
                 dc = make_config(size, rank)
                 r = P._calculate_ranges(dc, start, stop)
                 blocks.append([int(r[0]), int(r[1])])
-                allr.append([[int(x[0]), int(x[1])] for x in dc.ranges])
+                if not hasattr(dc, "ranges"):
+                    # the table of all blocks is part of what the helper hands out
+                    allr.append(None)
+                else:
+                    allr.append([[int(x[0]), int(x[1])] for x in dc.ranges])
             huge = (stop - start) > 10 ** 6
             bad = partition.check_blocks_arith(blocks, start, stop) if huge \
                 else partition.check_blocks(blocks, start, stop)
